@@ -251,6 +251,25 @@ func (o OneOfSchema[KeyType]) validateSchema(otherSchema OneOfSchema[KeyType]) e
 
 func (o OneOfSchema[KeyType]) validateMap(data map[string]any) (KeyType, Object, error) {
 	var nilKey KeyType
+	selectedTypeIDAsserted, selectedSchema, err := o.selectTypeFromMap(data)
+	if err != nil {
+		return nilKey, nil, err
+	}
+	cloneData := o.deleteDiscriminator(data)
+	err = selectedSchema.ValidateCompatibility(cloneData)
+	if err != nil {
+		return nilKey, nil, &ConstraintError{
+			Message: fmt.Sprintf(
+				"validation failed for OneOfSchema. Failed to validate as selected schema type '%T' from discriminator value '%v' (%s)",
+				selectedSchema, selectedTypeIDAsserted, err),
+		}
+	}
+	return selectedTypeIDAsserted, selectedSchema, nil
+}
+
+// selectTypeFromMap finds the member the discriminator of the map selects, without looking at the other fields.
+func (o OneOfSchema[KeyType]) selectTypeFromMap(data map[string]any) (KeyType, Object, error) {
+	var nilKey KeyType
 	// Validate that it has the discriminator field.
 	// If it doesn't, fail
 	// If it does, pass the non-discriminator fields into the ValidateCompatibility method for the object
@@ -277,15 +296,6 @@ func (o OneOfSchema[KeyType]) validateMap(data map[string]any) (KeyType, Object,
 			Message: fmt.Sprintf(
 				"validation failed for OneOfSchema. Discriminator value '%v' is invalid. Expected one of: %v",
 				selectedTypeIDAsserted, o.getTypeValues()),
-		}
-	}
-	cloneData := o.deleteDiscriminator(data)
-	err := selectedSchema.ValidateCompatibility(cloneData)
-	if err != nil {
-		return nilKey, nil, &ConstraintError{
-			Message: fmt.Sprintf(
-				"validation failed for OneOfSchema. Failed to validate as selected schema type '%T' from discriminator value '%v' (%s)",
-				selectedSchema, selectedTypeIDAsserted, err),
 		}
 	}
 	return selectedTypeIDAsserted, selectedSchema, nil
@@ -370,7 +380,9 @@ func (o OneOfSchema[KeyType]) findUnderlyingType(data any) (KeyType, Object, err
 
 	var foundKey *KeyType
 	if reflectedType.Kind() == reflect.Map {
-		myKey, mySchemaObj, err := o.validateMap(data.(map[string]any))
+		// Only select the member here: the callers validate the data against it themselves, and they hold
+		// unserialized data, which the data-mode compatibility check of validateMap is not meant for.
+		myKey, mySchemaObj, err := o.selectTypeFromMap(data.(map[string]any))
 		if err != nil {
 			return nilKey, nil, err
 		}
